@@ -19,11 +19,15 @@ symbols to a unit:
      contributions of the contained procedures (host association) are merged
      into it before -- a host import used only by an internal procedure is
      otherwise removed.
+ R4  one case folding: every name ``used_names_from_symbol`` returns passes through
+     its ``modifier`` (default ``str.lower``), recursion hands the modifier on, and
+     ``eliminate_unused_imports`` looks imported names up folded the same way.
  R3  accumulate, then consume: in ``extract_internal_procedure`` the list of host
      variables that become dummies of the extracted routine is final before the
      kinds / derived types / imports needed by those dummies are derived from
      it (no statement adds to the list after a statement that reads the
-     ``.type`` of its elements).
+     ``.type`` of its elements), and every list the new dummies are drawn from is
+     read by each of those statements.
 Not decided: that every *used* variable is declared / imported in general, that the
 generated code is accepted by frontend and compiler, symbols created without an
 explicit scope (they are attached when the unit rescopes).
@@ -187,11 +191,23 @@ def run_r23(ctx):
     E = 'loki/transformations/extract/internal.py'
     g = m.get_function(E, 'extract_internal_procedure')
     adds = [a for a in ast.walk(g.node) if isinstance(a, ast.AugAssign) and isinstance(a.target, ast.Attribute) and a.target.attr == 'arguments']
+    def _sources(it):
+        """names of the lists a generator draws from: `a`, `a + b`, `tuple(a) + b`, `chain(a, b)`"""
+        if isinstance(it, ast.Name):
+            return [it.id]
+        if isinstance(it, ast.BinOp) and isinstance(it.op, ast.Add):
+            l_, r_ = _sources(it.left), _sources(it.right)
+            return l_ + r_ if l_ and r_ else []
+        if isinstance(it, ast.Call) and X.call_name_of(it) in ('tuple', 'list', 'chain', 'as_tuple') and it.args:
+            parts = [_sources(a_) for a_ in it.args]
+            return [n_ for p_ in parts for n_ in p_] if all(parts) else []
+        return []
     comp = next((c for a in adds for c in ast.walk(a.value) if isinstance(c, (ast.GeneratorExp, ast.ListComp))
-                 and isinstance(c.generators[0].iter, ast.Name)), None)
+                 and _sources(c.generators[0].iter)), None)
     if comp is None:
         raise AnalysisError('extract_internal_procedure: `inner.arguments += (... for v in <list>)` was not found')
-    V = comp.generators[0].iter.id
+    D = _sources(comp.generators[0].iter)
+    V = D[0]
     muts = _mutations(g.node, V)
     mut_ids = {id(x) for a in muts for x in ast.walk(a)}
     # locals that only feed V (e.g. the list of shape variables appended to it)
@@ -230,8 +246,8 @@ def run_r23(ctx):
     growth = [a for a in muts if isinstance(a, (ast.AugAssign, ast.Expr)) or (
         isinstance(a, ast.Assign) and any(isinstance(b, ast.BinOp) and isinstance(b.op, ast.Add) and any(
             isinstance(n, ast.Name) and n.id == V for n in ast.walk(b)) for b in ast.walk(a.value)))]
-    if not type_consumers or not growth:
-        raise AnalysisError(f'extract_internal_procedure: type-deriving consumers ({len(type_consumers)}) / growth statements ({len(growth)}) of `{V}` not found')
+    if not type_consumers:
+        raise AnalysisError(f'extract_internal_procedure: type-deriving consumers of `{V}` not found')
     ctx.floor('R3', 'statements deriving kinds / types from the dummy list', len(type_consumers), 2)
     first = min(c.lineno for c in type_consumers)
     late = [a for a in growth if a.lineno > first]
@@ -244,8 +260,105 @@ def run_r23(ctx):
     else:
         ctx.judge('R3', 'dummy list complete before kinds / types are derived from it',
                   facts={'list': V, 'type_consumers': len(type_consumers), 'growth_statements': len(growth)})
+    # every list the new dummies are drawn from is seen by every statement that derives kinds / types from the dummies
+    for W in D[1:]:
+        for c_ in type_consumers:
+            seen = any(isinstance(n, ast.Name) and n.id == W for cc in ast.walk(c_) if isinstance(cc, (ast.GeneratorExp, ast.ListComp, ast.SetComp))
+                       for gen in cc.generators for n in ast.walk(gen.iter))
+            inst = f'extract_internal_procedure:{W}:seen-by:{ast.unparse(c_.targets[0]) if isinstance(c_, ast.Assign) else c_.lineno}'
+            if seen:
+                ctx.judge('R3', inst)
+            else:
+                ctx.violation('R3', 'extract_internal_procedure:dummies-without-type-derivation', f'{E}:{c_.lineno}',
+                              f'the new dummies are drawn from `{ast.unparse(comp.generators[0].iter)}`, but `{ast.unparse(c_)[:70]}...` derives the '
+                              f'needed kinds / types from `{V}` only: the dummies taken from `{W}` come without their imports, the extracted '
+                              f'routine uses a kind or type that is neither declared nor imported', instance=inst)
+    # ---- R4: the use set and the comparison against it fold case the same way
+    ctx.rule('R4', 'used_names_from_symbol folds every name it returns with `modifier`; eliminate_unused_imports compares the imported name '
+                   'folded with the default modifier')
+    un = m.get_function(U, 'used_names_from_symbol')
+    el = m.get_function(U, 'eliminate_unused_imports')
+    if un is None or el is None:
+        raise AnalysisError('used_names_from_symbol / eliminate_unused_imports vanished')
+    mod_param = next((a_.arg for a_, d_ in zip(un.node.args.args[-len(un.node.args.defaults):], un.node.args.defaults)
+                      if isinstance(d_, ast.Attribute) and ast.unparse(d_) in ('str.lower', 'str.upper', 'str.casefold')), None)
+    if mod_param is None:
+        raise AnalysisError('used_names_from_symbol: folding parameter (default str.lower) not found')
+    default_fold = ast.unparse(un.node.args.defaults[[a_.arg for a_ in un.node.args.args[-len(un.node.args.defaults):]].index(mod_param)]).split('.')[1]
+    n_el = 0
+
+    def elements(e):
+        """[(element expr | ('rec', call))] of a returned set expression; None when the shape is unknown"""
+        if isinstance(e, ast.BinOp) and isinstance(e.op, ast.BitOr):
+            l_, r_ = elements(e.left), elements(e.right)
+            return None if l_ is None or r_ is None else l_ + r_
+        if isinstance(e, (ast.Set, ast.List, ast.Tuple)):
+            return list(e.elts)
+        if isinstance(e, ast.Call) and X.call_name_of(e) == un.name:
+            return [('rec', e)]
+        if isinstance(e, ast.Call) and X.call_name_of(e) in ('OrderedSet', 'set', 'frozenset'):
+            if not e.args:
+                return []
+            a0 = e.args[0]
+            if isinstance(a0, (ast.GeneratorExp, ast.ListComp, ast.SetComp)):
+                return [a0.elt]
+            return elements(a0)
+        return None
+    for r_ in [x_ for x_ in ast.walk(un.node) if isinstance(x_, ast.Return) and x_.value is not None]:
+        els = elements(r_.value)
+        if els is None:
+            raise AnalysisError(f'used_names_from_symbol ({U}:{r_.lineno}): returned set expression outside the recognised shapes')
+        for e_ in els:
+            n_el += 1
+            if isinstance(e_, tuple):
+                call = e_[1]
+                ok = any(k_.arg == mod_param and isinstance(k_.value, ast.Name) and k_.value.id == mod_param for k_ in call.keywords) or \
+                    (len(call.args) > 1 and isinstance(call.args[1], ast.Name) and call.args[1].id == mod_param)
+                txt = ast.unparse(call)
+            else:
+                ok = isinstance(e_, ast.Call) and isinstance(e_.func, ast.Name) and e_.func.id == mod_param
+                txt = ast.unparse(e_)
+            inst = f'used_names_from_symbol:{txt[:60]}'
+            if ok:
+                ctx.judge('R4', inst)
+            else:
+                ctx.violation('R4', 'used_names_from_symbol:name-not-folded', f'{U}:{r_.lineno}',
+                              f'`{txt}` enters the set of used names without `{mod_param}` (default str.{default_fold}), while '
+                              f'eliminate_unused_imports looks imported names up folded: a name spelled with other case is taken as unused '
+                              f'and its import is removed although declarations still refer to it', instance=inst)
+    ctx.floor('R4', 'elements returned by used_names_from_symbol', n_el, 5)
+    used_param = el.node.args.args[1].arg if len(el.node.args.args) > 1 else None
+    tests = [c_ for c_ in ast.walk(el.node) if isinstance(c_, ast.Compare) and len(c_.ops) == 1 and isinstance(c_.ops[0], (ast.In, ast.NotIn))
+             and isinstance(c_.comparators[0], ast.Name) and c_.comparators[0].id == used_param]
+    if not tests:
+        raise AnalysisError('eliminate_unused_imports: membership test against the use set not found')
+    for t_ in tests:
+        l_ = t_.left
+        ok = isinstance(l_, ast.Call) and isinstance(l_.func, ast.Attribute) and l_.func.attr == default_fold and not l_.args
+        (ctx.judge('R4', f'eliminate_unused_imports:{ast.unparse(t_)[:60]}') if ok else
+         ctx.violation('R4', 'eliminate_unused_imports:lookup-not-folded', f'{U}:{t_.lineno}',
+                       f'`{ast.unparse(t_)}` looks the imported name up without `.{default_fold}()` in a set whose members are folded with '
+                       f'str.{default_fold}: an import spelled with other case is removed although it is used'))
+    # callers keep the default folding
+    for c_ in ast.walk(f.node):
+        if isinstance(c_, ast.Call) and X.call_name_of(c_) == un.name:
+            ok = len(c_.args) <= 1 and not any(k_.arg == mod_param for k_ in c_.keywords)
+            (ctx.judge('R4', f'find_and_eliminate_unused_imports:{ast.unparse(c_)[:50]}') if ok else
+             ctx.violation('R4', 'find_and_eliminate_unused_imports:other-modifier', f'{U}:{c_.lineno}',
+                           f'`{ast.unparse(c_)}` builds the use set with another folding than the one eliminate_unused_imports compares with'))
 
 MUTANTS = [
+    Mutant('kind-name-not-folded', 'loki/transformations/utilities.py', "            return {modifier(str(symbol.kind))}", "            return {str(symbol.kind)}",
+           expect=('R4', 'name-not-folded')),
+    Mutant('type-name-not-folded', 'loki/transformations/utilities.py', "        return OrderedSet([modifier(symbol.name)])\n\n    return OrderedSet()",
+           "        return OrderedSet([symbol.name])\n\n    return OrderedSet()", expect=('R4', 'name-not-folded')),
+    Mutant('modifier-not-handed-on', 'loki/transformations/utilities.py', "        return used_names_from_symbol(symbol.dtype, modifier=modifier)",
+           "        return used_names_from_symbol(symbol.dtype)", expect=('R4', 'name-not-folded')),
+    Mutant('lookup-not-folded', 'loki/transformations/utilities.py', "if s.name.lower() not in used_symbols}", "if s.name not in used_symbols}",
+           expect=('R4', 'lookup-not-folded')),
+    Mutant('shape-dummies-separate-list', 'loki/transformations/extract/internal.py',
+           "        for v in vars_to_resolve\n    )\n    inner.spec.prepend(imports_to_add)",
+           "        for v in vars_to_resolve + tuple(arr_shapes)\n    )\n    inner.spec.prepend(imports_to_add)", expect=('R3', 'dummies-without-type-derivation')),
     Mutant('eliminate-before-members', 'loki/transformations/utilities.py',
            "    # Recurse for contained subroutines/functions\n    for member in routine.members:\n        used_symbols |= find_and_eliminate_unused_imports(member)\n\n    eliminate_unused_imports(routine, used_symbols)\n",
            "    eliminate_unused_imports(routine, used_symbols)\n\n    # Recurse for contained subroutines/functions\n    for member in routine.members:\n        used_symbols |= find_and_eliminate_unused_imports(member)\n",
